@@ -277,6 +277,102 @@ def l3_case(args):
     return args[:4], errs, len(bed)
 
 
+# ------------------------------------------------------------------------------------------------ L4 record placement
+PLACE_KINDS = "PSXQ"      # P reported primary (spliced, MAPQ 60); S supplementary record; X secondary two-exon record in an unannotated
+                          # region (documented filter); Q primary mono-exonic MAPQ-0 record in an unannotated region (documented filter)
+
+
+def placement_world(sub_b, sub_c, n_unmapped):
+    """chr1 carries an annotated gene with assigned reads; chr2 / chr3 are unannotated and carry the given subsets of record kinds:
+       chromosomes that contribute statistics but no reported read, in every combination"""
+    from vlib import worlds as W, syn
+    w = {"chroms": {"chr1": 6000, "chr2": 6000, "chr3": 6000}, "genes": [], "reads": [], "sites": []}
+    w["genes"].append({"id": "G1", "chr": "chr1", "strand": "+", "transcripts": [{"id": "T1", "exons": [[1001, 1300], [1601, 1900], [2201, 2600]]}]})
+    syn.plant_for_transcripts(w)
+    reads = [W.read_of("a%d" % i, "chr1", [[1001, 1300], [1601, 1900], [2201, 2600]]) for i in range(2)]
+    exp = {"a0", "a1"}
+    stats = {"primary": 2, "secondary": 0, "supplementary": 0, "unaligned": n_unmapped}
+    for chrom, sub in (("chr2", sub_b), ("chr3", sub_c)):
+        blocks3 = [[1001, 1300], [1601, 1900], [2201, 2600]]
+        if "P" in sub:
+            W.add_sites_for_blocks(w, chrom, blocks3, "+")
+            reads.append(W.read_of("P_" + chrom, chrom, blocks3))
+            exp.add("P_" + chrom)
+            stats["primary"] += 1
+        if "S" in sub:
+            reads.append(W.read_of("a0" if chrom == "chr2" else "a1", chrom, [[3001, 3300]], polya=False, supplementary=True))
+            stats["supplementary"] += 1
+        if "X" in sub:
+            reads.append(W.read_of("a1" if chrom == "chr2" else "a0", chrom, [[3601, 3800], [4001, 4200]], polya=False, secondary=True))
+            stats["secondary"] += 1
+        if "Q" in sub:
+            reads.append(W.read_of("Q_" + chrom, chrom, [[4601, 4900]], polya=False, mapq=0))
+            stats["primary"] += 1
+    for i in range(n_unmapped):
+        reads.append({"name": "unm%d" % i, "unmapped": True})
+    w["reads"] = reads
+    return w, exp, stats
+
+
+def l4_case(args):
+    sub_b, sub_c, n_unm, mode, threads, scratch = args
+    from vlib import syn, run, vpool
+    w, exp, expstats = placement_world(sub_b, sub_c, n_unm)
+    d = os.path.join(scratch, "c05p_%s_%s_%d_%s_%d" % (sub_b or "0", sub_c or "0", n_unm, mode, threads))
+    shutil.rmtree(d, ignore_errors=True)
+    paths = syn.materialise(w, d)
+    out = os.path.join(d, "out")
+    extra = ["--no_model_construction"] + (["--high_memory"] if mode == "high_memory" else [])
+    hook = (lambda: vpool.install(None)) if threads > 1 else None
+    rc = run.run_isoquant(run.base_argv(paths, out, threads=threads, extra=extra), paths["home"], os.path.join(d, "o.txt"), pre_hook=hook)
+    errs = []
+    if rc != 0:
+        errs.append(("run-failed", "exit %d: %s" % (rc, open(os.path.join(d, "o.txt")).read()[-300:])))
+        shutil.rmtree(d, ignore_errors=True)
+        return args[:5], errs
+    try:
+        bed_names = [b["name"] for b in run.parse_bed(run.find(out, "OUT", ".corrected_reads.bed"))]
+        tsv_names = [r["read_id"] for r in run.parse_assignments(run.find(out, "OUT", ".read_assignments.tsv"))]
+    except Exception as e:  # noqa
+        errs.append(("output-unreadable", repr(e)))
+        shutil.rmtree(d, ignore_errors=True)
+        return args[:5], errs
+    for what, names in (("bed", bed_names), ("tsv", tsv_names)):
+        if set(names) != exp:
+            errs.append(("reported-set:" + what, "reported reads %s, reads passing the documented filters %s" % (sorted(set(names)), sorted(exp))))
+    log = open(os.path.join(out, "isoquant.log")).read()
+    stats = {}
+    m = re.search(r"overall alignment statistics:(.*?)(?:Finishing|No reads)", log, re.S)
+    if m:
+        for k, v in re.findall(r" - INFO - (\w+): (\d+)", m.group(1)):
+            stats[k] = int(v)
+    for k, v in expstats.items():
+        if stats.get(k, 0) != v:
+            errs.append(("log-stat:" + k, "log says %s: %s, the BAM has %d such records" % (k, stats.get(k), v)))
+    # the __not_aligned line of the count tables is the unaligned statistic
+    try:
+        h, rows = run.parse_counts(run.find(out, "OUT", ".gene_counts.tsv"))
+        na = rows.get("__not_aligned")
+        if na is not None and abs(float(na[0][0]) - n_unm) > 1e-9:
+            errs.append(("not-aligned-line", "__not_aligned = %s, the BAM has %d unmapped records" % (na[0][0], n_unm)))
+    except Exception as e:  # noqa
+        errs.append(("output-unreadable", repr(e)))
+    shutil.rmtree(d, ignore_errors=True)
+    return args[:5], errs
+
+
+def placement_jobs(ctx):
+    quick = ctx.tier == "quick"
+    subsets = ["".join(c) for n in range(len(PLACE_KINDS) + 1) for c in itertools.combinations(PLACE_KINDS, n)]
+    jobs = []
+    for sb in subsets:
+        for sc in (("", "P") if quick else subsets):
+            for mode, threads in ((("default", 1), ("high_memory", 2)) if quick else (("default", 1), ("high_memory", 1), ("default", 2))):
+                for n_unm in ((1,) if quick else (0, 2)):
+                    jobs.append((sb, sc, n_unm, mode, threads, ctx.scratch))
+    return jobs
+
+
 def run(ctx):
     quick = ctx.tier == "quick"
     k = 3 if quick else 4
@@ -313,6 +409,13 @@ def run(ctx):
         for kk, msg in errs:
             ctx.violation("l3:%s:%s" % (key[0], kk), "%s param=%s annotated=%d mode=%s: %s" % (key + (msg,)), {"case": list(key)})
     ctx.note("L3 pipeline runs at real constants: %d, %d BED records checked" % (len(jobs), nrec))
+    pj = placement_jobs(ctx)
+    for key, errs in core.pmap(l4_case, pj, chunksize=4):
+        for kk, msg in errs:
+            ctx.violation("l4:%s" % kk, "record kinds on chr2 %r, chr3 %r, %d unmapped, mode %s, threads %d: %s" % (key + (msg,)), {"placement": list(key)})
+    ctx.note("L4 record placement: %d pipeline runs (every subset of {reported primary, supplementary, filtered secondary, filtered MAPQ-0 primary} "
+             "on unannotated chromosomes)" % len(pj))
+    jobs = jobs + pj
     ctx.coverage.update({
         "evaluations": total + len(jobs), "distinct_nontrivial": nontriv + len(jobs),
         "rule": "L1 case = (cluster of alignments, constants set); non-trivial = cluster actually split into >=2 regions; L3 case = pipeline "
@@ -329,5 +432,8 @@ def replay(ctx, case):
     if "cluster" in case:
         n, nt, bad = l1_chunk(([[tuple(x) for x in case["cluster"]]], case["consts"]))
         return bad[0][2] if bad else None
+    if "placement" in case:
+        key, errs = l4_case(tuple(case["placement"]) + (ctx.scratch,))
+        return errs[0][1] if errs else None
     key, errs, nb = l3_case(tuple(case["case"]) + (ctx.scratch,))
     return errs[0][1] if errs else None
